@@ -5,6 +5,7 @@ import (
 	"go/constant"
 	"go/types"
 	"os"
+	"regexp"
 	"sort"
 	"strings"
 
@@ -126,6 +127,7 @@ func ruleC01(r *Report) {
 
 	checkSigToken(r, m, sr)
 	checkSameEl(r, m, sr)
+	safely(r, func() { checkUnmarshalBytes(r, p, sr, "C01.sameel") })
 	checkValidateResult(r, m, sr)
 	checkRoots(r, m, sr)
 	checkNSMatch(r, m, sr)
@@ -1630,4 +1632,70 @@ func unmarshalSiteOf(p *Prog, sr *sigRoles, c *ssa.Call) (el, target ssa.Value, 
 		}
 	}
 	return nil, target, true
+}
+
+// checkUnmarshalBytes: what the SP unmarshals is the element it verified, serialised as it is. The functions between the
+// verified element and xml.Unmarshal (the unmarshal helpers and the module serialisers they hand the element to) copy the
+// element, re-declare namespaces on the copy and write it; they call nothing of etree that changes content — no
+// Unindent/Indent (which delete white-space-only text, i.e. whole values that consist of blanks), no Remove*, no
+// SetText/SetTail/CreateText, no added or moved children.
+func checkUnmarshalBytes(r *Report, p *Prog, sr *sigRoles, rule string) {
+	deny := regexp.MustCompile(`^(Unindent|Indent|IndentTabs|IndentWithSettings|Remove.*|SetText|SetCData|SetTail|CreateText|CreateCData|CreateCharData|CreateComment|CreateElement|CreateDirective|CreateProcInst|AddChild|InsertChild|InsertChildAt|SortAttrs)$`)
+	region := map[*ssa.Function]bool{}
+	add := func(f *ssa.Function) {
+		for _, g := range helperRegion(p, f, 2) {
+			if p.InLibrary(g) {
+				region[g] = true
+			}
+		}
+	}
+	for f := range sr.Unmarshal {
+		add(f)
+	}
+	// an unmarshal written out in place: the module function that turned the element into the bytes
+	for _, fn := range p.modFns {
+		if !p.InLibrary(fn) || sr.Unmarshal[fn] {
+			continue
+		}
+		for _, b := range fn.Blocks {
+			for _, in := range b.Instrs {
+				c, ok := in.(*ssa.Call)
+				if !ok || !calleeIs(c, "encoding/xml.Unmarshal") {
+					continue
+				}
+				buf := Resolve(c.Call.Args[0])
+				if ex, isEx := buf.(*ssa.Extract); isEx {
+					buf = ex.Tuple
+				}
+				if bc, isCall := buf.(*ssa.Call); isCall {
+					if h := bc.Call.StaticCallee(); h != nil && p.InLibrary(h) {
+						for _, a := range bc.Call.Args {
+							if typeIs(a.Type(), "github.com/beevik/etree", "Element") {
+								add(h)
+							}
+						}
+					}
+				}
+			}
+		}
+	}
+	bad := ""
+	n := 0
+	for _, f := range sortedFns(p, region) {
+		// (the document serialiser itself is shared with the emitting side and judged there)
+		n++
+		for _, b := range f.Blocks {
+			for _, in := range b.Instrs {
+				c, ok := in.(ssa.CallInstruction)
+				if !ok || c.Common().StaticCallee() == nil {
+					continue
+				}
+				sc := c.Common().StaticCallee()
+				if sc.Pkg != nil && sc.Pkg.Pkg.Path() == etreePath && deny.MatchString(sc.Name()) {
+					bad = firstNonEmpty(bad, p.FnName(f)+" calls "+sc.Name()+" at "+p.InstrPos(in))
+				}
+			}
+		}
+	}
+	r.Check(n >= 1 && bad == "", rule, "the bytes unmarshalled are the verified element, copied and serialised unchanged", "-", fmt.Sprintf("%d functions between the verified element and xml.Unmarshal; none edits the copy's content", n), "the copy that is serialised for xml.Unmarshal is edited first ("+bad+"): the object returned is then not the content that was signed (a value made of white space only is deleted by Unindent/Indent, for instance)")
 }
